@@ -27,8 +27,10 @@ From Coq Require Import List NArith Bool.
 From Coq.Strings Require Import Byte.
 From GM Require Import Base.Lts Codec.Packet Codec.WF Codec.Enc Codec.Dec Codec.DecProofsSafe
   Topic.MatchSpec Session.Store
-  Broker.Conn Broker.ConnSpec Broker.ConnSpec2 Broker.ConnProofsD0 Broker.ConnProofsD1 Broker.ConnProofsD2
+  Broker.Conn Broker.ConnSpec Broker.ConnSpec2 Broker.ConnSpec5 Broker.ConnProofsD0 Broker.ConnProofsD1 Broker.ConnProofsD2 Broker.ConnProofsD3
   Broker.Compose Broker.Backend Broker.BackendSpec Broker.BackendReadings.
+(* stream-level totality (C14_total_stream) lives in its own file: *)
+From GM Require Props.C14_stream Props.C14_conn.
 Import ListNotations.
 Open Scope N_scope.
 
@@ -52,8 +54,8 @@ Theorem C14_forwardable_will : forall bs c m n,
 Proof. exact decoded_will_forwardable. Qed.
 Print Assumptions C14_forwardable_will.
 
-Theorem C14_lifecycle : forall es s, bc_run es = Some s -> c14_lifecycle es = true.
-Proof. exact c14_lifecycle_holds. Qed.
+Theorem C14_lifecycle : forall es s, bc_run es = Some s -> c14_lifecycle2 es = true.
+Proof. exact c14_lifecycle2_holds. Qed.
 Print Assumptions C14_lifecycle.
 
 Theorem C14_closed_fires : forall es s, bc_run es = Some s ->
